@@ -1,5 +1,17 @@
 use crate::engine::Tier;
 pub mod c03;
+pub mod c04;
+pub mod c05;
+pub mod c02;
+pub mod c06;
+pub mod c07;
+pub mod c08;
+pub mod c09;
+pub mod c10;
+pub mod c11;
+pub mod c13;
+pub mod phys;
+pub mod xproc;
 
 macro_rules! registry {
     ($($id:literal => $m:ident),* $(,)?) => {
@@ -19,5 +31,15 @@ macro_rules! registry {
     };
 }
 registry! {
+    "C02" => c02,
     "C03" => c03,
+    "C04" => c04,
+    "C05" => c05,
+    "C06" => c06,
+    "C07" => c07,
+    "C08" => c08,
+    "C09" => c09,
+    "C10" => c10,
+    "C11" => c11,
+    "C13" => c13,
 }
